@@ -26,6 +26,94 @@ Proof.
   apply N.pow_lt_mono_r; lia.
 Qed.
 
+(** ** the other direction: encode . decode drops leading zero qwords and changes nothing else *)
+Definition strip0 (qs : list N) : list N := (fix go l := match l with 0%N :: t => go t | _ => l end) qs.
+Definition digits_ok (qs : list N) : Prop := Forall (fun w => (w < Q64)%N) qs.
+
+Lemma of_qwords_snoc : forall qs w, of_qwords (qs ++ [w]) = (of_qwords qs * Q64 + w)%N.
+Proof. intros. unfold of_qwords. rewrite fold_left_app. reflexivity. Qed.
+
+Lemma of_qwords_strip : forall qs, of_qwords (strip0 qs) = of_qwords qs.
+Proof.
+  induction qs as [|w t IH]; auto. destruct w as [|p].
+  - change (strip0 (0%N :: t)) with (strip0 t). rewrite IH. unfold of_qwords. simpl. reflexivity.
+  - reflexivity.
+Qed.
+
+(* fuel irrelevance: enough fuel *)
+Lemma to_qwords_fuel_enough : forall f1 f2 n acc, (n < 2 ^ N.of_nat f1)%N -> (n < 2 ^ N.of_nat f2)%N ->
+  to_qwords_fuel f1 n acc = to_qwords_fuel f2 n acc.
+Proof.
+  induction f1 as [|f1 IH]; intros f2 n acc H1 H2.
+  - simpl in H1. assert (n = 0%N) by lia. subst. destruct f2; reflexivity.
+  - destruct f2 as [|f2].
+    + simpl in H2. assert (n = 0%N) by lia. subst. reflexivity.
+    + cbn [to_qwords_fuel]. destruct (N.eqb_spec n 0); auto.
+      assert (Hd : forall f, (n < 2 ^ N.of_nat (Datatypes.S f))%N -> (n / Q64 < 2 ^ N.of_nat f)%N).
+      { intros f Hf. rewrite Nat2N.inj_succ, N.pow_succ_r' in Hf. apply N.div_lt_upper_bound; [discriminate|].
+        unfold Q64. eapply N.lt_le_trans; [exact Hf|]. apply N.mul_le_mono_r. lia. }
+      apply IH; apply Hd; auto.
+Qed.
+Lemma size_bound : forall n, (n < 2 ^ N.of_nat (Datatypes.S (N.to_nat (N.size n))))%N.
+Proof.
+  intros n. rewrite Nat2N.inj_succ, N2Nat.id. eapply N.lt_trans; [apply N.size_gt|]. apply N.pow_lt_mono_r; lia.
+Qed.
+Lemma to_qwords_step : forall a w, (w < Q64)%N -> (a * Q64 + w <> 0)%N ->
+  forall f, (a * Q64 + w < 2 ^ N.of_nat (Datatypes.S f))%N ->
+  to_qwords_fuel (Datatypes.S f) (a * Q64 + w) [] = to_qwords_fuel f a [w].
+Proof.
+  intros a w Hw Hnz f Hf. cbn [to_qwords_fuel]. destruct (N.eqb_spec (a * Q64 + w) 0); [contradiction|].
+  assert (Hq : ((a * Q64 + w) / Q64 = a)%N). { rewrite N.div_add_l by discriminate. rewrite N.div_small by exact Hw. lia. }
+  assert (Hm : ((a * Q64 + w) mod Q64 = w)%N). { rewrite N.add_comm, N.mod_add by discriminate. apply N.mod_small. exact Hw. }
+  rewrite Hq, Hm. reflexivity.
+Qed.
+Lemma to_qwords_fuel_acc : forall f n acc, to_qwords_fuel f n acc = to_qwords_fuel f n [] ++ acc.
+Proof.
+  induction f as [|f IH]; intros n acc; cbn [to_qwords_fuel]; auto.
+  destruct (n =? 0)%N; auto. rewrite IH, (IH _ [_]). rewrite <- app_assoc. reflexivity.
+Qed.
+
+(** canonical digit lists (no leading zero, every digit below 2^64) are fixed points of encode . decode *)
+Lemma to_of_canonical : forall qs, digits_ok qs -> (match qs with 0%N :: _ => False | _ => True end) ->
+  to_qwords (of_qwords qs) = qs.
+Proof.
+  intros qs. induction qs as [|w t IH] using rev_ind; intros Hd Hc.
+  - reflexivity.
+  - rewrite of_qwords_snoc. unfold digits_ok in Hd. apply Forall_app in Hd. destruct Hd as [Hdt Hdw]. inversion Hdw; subst.
+    assert (Hct : match t with 0%N :: _ => False | _ => True end). { destruct t as [|x t']; simpl in *; auto. }
+    specialize (IH Hdt Hct).
+    assert (Hnz : (of_qwords t * Q64 + w <> 0)%N).
+    { destruct t as [|x t'].
+      - simpl in *. unfold of_qwords. simpl. destruct w; [contradiction|discriminate].
+      - intros E. assert (Hz : of_qwords (x :: t') = 0%N) by (unfold Q64 in E; lia).
+        rewrite Hz in IH. cbn in IH. discriminate. }
+    unfold to_qwords.
+    set (n := (of_qwords t * Q64 + w)%N) in *.
+    rewrite (to_qwords_fuel_enough _ (Datatypes.S (Datatypes.S (N.to_nat (N.size n)))) n []); [|apply size_bound|].
+    2:{ eapply N.lt_trans; [apply size_bound|]. apply N.pow_lt_mono_r; lia. }
+    unfold n. rewrite to_qwords_step; auto.
+    2:{ fold n. eapply N.lt_trans; [apply size_bound|]. apply N.pow_lt_mono_r; lia. }
+    rewrite to_qwords_fuel_acc. f_equal.
+    fold n. unfold to_qwords in IH. rewrite <- IH at 2.
+    apply to_qwords_fuel_enough; [|apply size_bound].
+    eapply N.le_lt_trans; [|apply size_bound]. unfold n.
+    assert (of_qwords t <= of_qwords t * Q64 + w)%N. { unfold Q64. lia. } exact H.
+Qed.
+
+Lemma strip0_canonical : forall qs, digits_ok qs -> digits_ok (strip0 qs) /\ match strip0 qs with 0%N :: _ => False | _ => True end.
+Proof.
+  induction qs as [|w t IH]; intros H; [split; [constructor|exact I]|].
+  inversion H; subst. simpl. destruct w.
+  - apply IH. auto.
+  - split; [exact H|exact I].
+Qed.
+
+(** encode . decode normalises: leading zero qwords are dropped, nothing else changes *)
+Theorem qwords_normalise : forall qs, digits_ok qs -> to_qwords (of_qwords qs) = strip0 qs.
+Proof.
+  intros qs H. rewrite <- of_qwords_strip. destruct (strip0_canonical qs H) as [A B]. apply to_of_canonical; auto.
+Qed.
+
 Section Stores.
 Context {S : ScalarOps}.
 Notation entry := (nat * T S)%type.
@@ -209,3 +297,73 @@ Proof.
 Qed.
 
 End Compute.
+
+(** ** timestamps of BasicCompute *)
+Section ComputeStamps.
+Context {S : ScalarOps}.
+
+Ltac bc_cases' :=
+  repeat match goal with
+         | |- context [match ?x with _ => _ end] => destruct x eqn:?; cbn [fst snd g_mats g_vecs]
+         | |- context [if ?x then _ else _] => destruct x eqn:?; cbn [fst snd g_mats g_vecs]
+         | |- context [let '(_, _) := ?x in _] => destruct x eqn:?; cbn [fst snd g_mats g_vecs]
+         end.
+
+(** no timestamp of any stored vector is ever lowered by BasicCompute, whatever the outcome *)
+Theorem basic_compute_timestamps_monotone : forall fuel deps (s : gstate S) q k v ts,
+  aget (g_vecs s) k = Some (v, ts) ->
+  exists v' ts', aget (g_vecs (fst (basic_compute fuel deps s q))) k = Some (v', ts') /\ (ts <= ts')%N.
+Proof.
+  intros fuel deps s q k v ts Hk. unfold basic_compute.
+  bc_cases'; try (exists v, ts; split; [exact Hk|lia]);
+  rewrite ?aget_aset;
+  repeat match goal with
+  | |- context [?a =? ?b] => destruct (Nat.eqb_spec a b); subst
+  end;
+  repeat match goal with
+  | H : aget (aset _ _ _) _ = _ |- _ => rewrite aget_aset in H
+  | H : context [?a =? ?a] |- _ => rewrite Nat.eqb_refl in H
+  end;
+  repeat match goal with
+  | H : Some _ = Some _ |- _ => inversion H; clear H; subst
+  | H1 : aget ?l ?k = Some _, H2 : aget ?l ?k = Some _ |- _ => rewrite H1 in H2
+  | H1 : aget ?l ?k = Some _, H2 : aget ?l ?k = None |- _ => rewrite H1 in H2; discriminate
+  end;
+  try (eexists; eexists; split; [reflexivity|lia]);
+  try (exists v, ts; split; [assumption|lia]).
+Qed.
+
+(*  an accepted BasicCompute stamps the global-trust vector with a timestamp at least as new as
+    the local trust's and the pre-trust's (and, by the previous theorem, its own previous one) *)
+Ltac inner_cases :=
+  repeat match goal with
+         | |- context [if ?x then _ else _] =>
+             lazymatch x with
+             | context [if _ then _ else _] => fail
+             | context [match _ with _ => _ end] => fail
+             | _ => destruct x eqn:?; cbn [fst snd g_mats g_vecs]
+             end
+         | |- context [match ?x with _ => _ end] =>
+             lazymatch x with
+             | context [if _ then _ else _] => fail
+             | context [match _ with _ => _ end] => fail
+             | _ => destruct x eqn:?; cbn [fst snd g_mats g_vecs]
+             end
+         end.
+
+Theorem basic_compute_stamp : forall fuel deps (s : gstate S) q c tsc,
+  snd (basic_compute fuel deps s q) = GOk -> aget (g_mats s) (bc_local q) = Some (c, tsc) ->
+  exists v' ts', aget (g_vecs (fst (basic_compute fuel deps s q))) (bc_global q) = Some (v', ts') /\ (tsc <= ts')%N /\
+    (forall pid p tsp, bc_pre q = Some pid -> aget (g_vecs s) pid = Some (p, tsp) -> (tsp <= ts')%N).
+Proof.
+  intros fuel deps s q c tsc. unfold basic_compute. intros Hok Hc. rewrite Hc in *.
+  revert Hok. inner_cases; intros Hok; try discriminate;
+  rewrite ?aget_aset, ?Nat.eqb_refl;
+  (eexists; eexists; split; [reflexivity|]);
+  (split; [lia|]); intros pidX pX tspX Hp Hg;
+  repeat match goal with
+  | H : Some _ = Some _ |- _ => inversion H; clear H; subst
+  | H1 : aget ?l ?k = Some _, H2 : aget ?l ?k = Some _ |- _ => rewrite H1 in H2
+  end; try discriminate; try lia.
+Qed.
+End ComputeStamps.
